@@ -347,6 +347,9 @@ func sm9SignCallOn(ks *sm9KeySet, user *sm9.SignPrivateKey, msg []byte, variant 
 		}
 		o.match = func(k *big.Int) string { return ks.sm9SignDiff(msg, h, S, k) }
 		o.reject = func(k *big.Int) bool { return ks.sm9SignRejects(msg, k) }
+		o.live = func() []byte { // the library's verifier under the master public key held by the key object
+			return []byte(fmt.Sprintf("verifies=%v", sm9.Verify(user.MasterPublic(), ks.signUID, ks.signHID, msg, new(big.Int).SetBytes(h), S)))
+		}
 		return
 	}
 	return c
@@ -588,23 +591,26 @@ func sm9KxInitCall(obj *sm9KxObj, p sm9Kx, rPeer *big.Int) *call {
 			}
 			return ""
 		}
-		o.follow = func(k *big.Int) string { // steps A5-A7 against the honest responder of the reference model
+		o.follow = func(k *big.Int, opt followOpt) (string, error) { // steps A5-A7 against the honest responder of the reference model
 			_, rb, ref := ks.kexRef(p.uidOwn, p.uidPeer, k, rPeer, p.klen)
 			var sB []byte
-			if p.sig {
+			if p.sig && !opt.withhold {
 				sB = ref.SB
 			}
 			key, sA, err := ko.ke.ConfirmResponder(rb, sB)
 			if err != nil {
-				return fmt.Sprintf("ConfirmResponder refuses the honest responder's answer (RB=[%x]QA, SB) to RA=[k]QB: %v - the object does not continue with the scalar it sampled", rPeer, err)
+				if opt.lenient && len(key) == 0 && len(sA) == 0 {
+					return "", err
+				}
+				return fmt.Sprintf("ConfirmResponder refuses the honest responder's answer (RB=[%x]QA, SB) to RA=[k]QB: %v (returning key %x) - the object does not continue with the scalar it sampled", rPeer, err, key), nil
 			}
 			if !bytes.Equal(key, ref.SK) {
-				return fmt.Sprintf("ConfirmResponder derives key %x, GM/T 0044.3 with rA=k gives %x - the object does not continue with the scalar it sampled", key, ref.SK)
+				return fmt.Sprintf("ConfirmResponder derives key %x, GM/T 0044.3 with rA=k gives %x - the object does not continue with the scalar it sampled", key, ref.SK), nil
 			}
 			if p.sig && !bytes.Equal(sA, ref.SA) {
-				return fmt.Sprintf("ConfirmResponder returns SA=%x, GM/T 0044.3 with rA=k gives %x", sA, ref.SA)
+				return fmt.Sprintf("ConfirmResponder returns SA=%x, GM/T 0044.3 with rA=k gives %x", sA, ref.SA), nil
 			}
-			return ""
+			return "", nil
 		}
 		return
 	}
@@ -642,23 +648,28 @@ func sm9KxRespondCall(obj *sm9KxObj, p sm9Kx, rPeer *big.Int) *call {
 			}
 			return ""
 		}
-		o.follow = func(k *big.Int) string { // SB and step B8 against the honest initiator of the reference model
+		o.follow = func(k *big.Int, opt followOpt) (string, error) { // SB and step B8 against the honest initiator of the reference model
 			_, _, ref := ks.kexRef(p.uidPeer, p.uidOwn, rPeer, k, p.klen)
 			var s1 []byte
 			if p.sig {
 				if !bytes.Equal(sB, ref.SB) {
-					return fmt.Sprintf("confirmation SB=%x, GM/T 0044.3 with rB=k gives %x - g2/g3 were not computed with the sampled scalar", sB, ref.SB)
+					return fmt.Sprintf("confirmation SB=%x, GM/T 0044.3 with rB=k gives %x - g2/g3 were not computed with the sampled scalar", sB, ref.SB), nil
 				}
-				s1 = ref.SA
+				if !opt.withhold {
+					s1 = ref.SA
+				}
 			}
 			key, err := ko.ke.ConfirmInitiator(s1)
 			if err != nil {
-				return fmt.Sprintf("ConfirmInitiator refuses the honest initiator's confirmation for RB=[k]QA: %v", err)
+				if opt.lenient && len(key) == 0 {
+					return "", err
+				}
+				return fmt.Sprintf("ConfirmInitiator refuses the honest initiator's confirmation for RB=[k]QA: %v (returning key %x)", err, key), nil
 			}
 			if !bytes.Equal(key, ref.SK) {
-				return fmt.Sprintf("ConfirmInitiator derives key %x, GM/T 0044.3 with rB=k gives %x - the object does not continue with the scalar it sampled", key, ref.SK)
+				return fmt.Sprintf("ConfirmInitiator derives key %x, GM/T 0044.3 with rB=k gives %x - the object does not continue with the scalar it sampled", key, ref.SK), nil
 			}
-			return ""
+			return "", nil
 		}
 		return
 	}
